@@ -90,6 +90,10 @@ type object struct {
 	version int  // committed version of the name this object reflects
 	dead    bool // must never be handed out again
 	size    int64
+	// pendingOf: the object was constructed inside a transaction that had already written this
+	// cache, so it reflects that transaction's uncommitted writes (the construct function reads
+	// through the transaction's own storage view)
+	pendingOf *txRun
 }
 
 func (o *object) SizeInMemory() int64 { return o.size }
@@ -116,6 +120,7 @@ type txRun struct {
 	startVer map[string]int
 	// what it owns
 	written map[string]*object // objects it had a successful or running write callback on
+	pending []*object          // objects constructed through this transaction's uncommitted view
 	errs    []error
 }
 
@@ -163,6 +168,42 @@ func isLockWait(status string) bool {
 	return strings.HasPrefix(status, "sync.Mutex.Lock") || strings.HasPrefix(status, "sync.RWMutex.Lock") || strings.HasPrefix(status, "sync.RWMutex.RLock") || strings.HasPrefix(status, "semacquire")
 }
 
+// statuses returns the scheduler status of every goroutine by id.
+func statuses() map[int64]string {
+	buf := make([]byte, 1<<20)
+	n := runtime.Stack(buf, true)
+	out := map[int64]string{}
+	for _, m := range headerRe.FindAllStringSubmatch(string(buf[:n]), -1) {
+		id, _ := strconv.ParseInt(m[1], 10, 64)
+		out[id] = m[2]
+	}
+	return out
+}
+
+func isHarnessWait(status string) bool {
+	return strings.HasPrefix(status, "chan receive") || strings.HasPrefix(status, "chan send") || strings.HasPrefix(status, "select")
+}
+
+// stableLockWait: transaction t waits on a lock and no other participant is
+// running (everyone else is parked on a harness channel, waits on a lock, or is
+// gone), so nothing can release the lock without a move of the scheduler.
+func (w *world) stableLockWait(t *txRun) bool {
+	st := statuses()
+	if !isLockWait(st[t.goid]) {
+		return false
+	}
+	for _, o := range w.txs {
+		if o == t || o.goid == 0 {
+			continue
+		}
+		s, alive := st[o.goid]
+		if alive && !isHarnessWait(s) && !isLockWait(s) {
+			return false
+		}
+	}
+	return true
+}
+
 // settle waits until transaction t is parked at a harness point or blocked on a
 // lock inside the manager; it returns true when it is blocked on a lock.
 func (w *world) settle(t *txRun) (blocked bool) {
@@ -172,30 +213,27 @@ func (w *world) settle(t *txRun) (blocked bool) {
 			return false
 		default:
 		}
-		st := goroutineStatus(t.goid)
-		if st == "" {
-			// goroutine finished without telling: treat as parked (done)
-			select {
-			case <-t.parked:
-			case <-time.After(time.Second):
+		if w.stableLockWait(t) {
+			// confirm after giving everybody a chance to run
+			for k := 0; k < 3; k++ {
+				runtime.Gosched()
+				time.Sleep(100 * time.Microsecond)
 			}
-			return false
-		}
-		if isLockWait(st) {
-			// double check: still no parking signal
 			select {
 			case <-t.parked:
 				return false
 			default:
+			}
+			if w.stableLockWait(t) {
 				return true
 			}
 		}
-		if i > 200000 {
-			w.violate("transaction %d neither parks nor blocks (goroutine status %q)", t.idx, st)
+		if i > 100000 {
+			w.violate("transaction %d neither parks nor blocks (goroutine status %q)", t.idx, goroutineStatus(t.goid))
 			return true
 		}
 		runtime.Gosched()
-		if i%50 == 49 {
+		if i%20 == 19 {
 			time.Sleep(20 * time.Microsecond)
 		}
 	}
@@ -226,7 +264,7 @@ func (w *world) runTx(t *txRun) {
 			defer w.mu.Unlock()
 			w.nextObj++
 			o := &object{id: w.nextObj, name: a.Name, version: w.committed[a.Name], size: 10}
-			w.logf("tx%d creates object %d for %s at version %d", t.idx, o.id, a.Name, o.version)
+			w.logf("tx%d creates object %d for %s at version %d (pending own writes: %v)", t.idx, o.id, a.Name, o.version, o.pendingOf != nil)
 			return o, nil
 		}, func(c cache.Cachable) error {
 			callbackRan = true
@@ -239,7 +277,9 @@ func (w *world) runTx(t *txRun) {
 			if o.dead {
 				w.violation = firstErr(w.violation, fmt.Errorf("tx%d was handed object %d of cache %q which was discarded earlier (failed callback or failed transaction)", t.idx, o.id, a.Name))
 			}
-			if ow, ok := w.owner[o]; ok && ow != t {
+			// (a transaction that is inside Commit releases its locks one by one before the harness can
+			// update its books: it no longer counts as holding the cache)
+			if ow, ok := w.owner[o]; ok && ow != t && ow.state != stCommitting {
 				w.violation = firstErr(w.violation, fmt.Errorf("tx%d (readOnly=%v) was handed object %d of cache %q while tx%d holds it for writing and has not committed", t.idx, a.ReadOnly, o.id, a.Name, ow.idx))
 			}
 			if o.version < t.startVer[a.Name] && w.owner[o] != t {
@@ -294,6 +334,14 @@ func (w *world) runTx(t *txRun) {
 		} else {
 			w.committed[name]++
 			o.version = w.committed[name]
+		}
+	}
+	for _, o := range t.pending {
+		o.pendingOf = nil
+		if failed {
+			o.dead = true // built from writes that were rolled back
+		} else {
+			o.version = w.committed[o.name]
 		}
 	}
 	w.logf("tx%d committed (failed=%v)", t.idx, failed)
